@@ -1,0 +1,186 @@
+// Copyright Amazon.com, Inc. or its affiliates. All Rights Reserved.
+// SPDX-License-Identifier: Apache-2.0
+
+//! verification hook driver: reset_map
+//!
+//! Several connections' `PeerIdRegistry`s sharing one `ConnectionIdMapper`, and the stateless reset
+//! lookup of `Endpoint::close_on_matching_stateless_reset` (last 16 bytes of a datagram decoded as a
+//! token, `remove_internal_connection_id_by_stateless_reset_token`).
+//! Connection ids are 8 byte big endian integers, tokens 16 byte big endian integers.
+
+use crate::{
+    connection::{
+        ConnectionIdMapper, InternalConnectionId, InternalConnectionIdGenerator, PeerIdRegistry,
+    },
+    verif_hooks::cids::{constraint, peer_id, token, ts, Recorder},
+};
+use s2n_codec::{DecoderBuffer, DecoderBufferMut, EncoderBuffer, EncoderValue};
+use s2n_quic_core::{
+    connection, endpoint,
+    frame::{self, Frame, FrameMut},
+    packet::number::{PacketNumber, PacketNumberRange, PacketNumberSpace},
+    random,
+    stateless_reset::{self, token::LEN as STATELESS_RESET_TOKEN_LEN},
+    transport,
+    varint::VarInt,
+};
+
+pub type V = i128;
+
+struct Rng(u64);
+
+impl random::Generator for Rng {
+    fn public_random_fill(&mut self, dest: &mut [u8]) {
+        for b in dest.iter_mut() {
+            self.0 = self
+                .0
+                .wrapping_mul(6364136223846793005)
+                .wrapping_add(1442695040888963407);
+            *b = (self.0 >> 33) as u8;
+        }
+    }
+
+    fn private_random_fill(&mut self, dest: &mut [u8]) {
+        self.public_random_fill(dest)
+    }
+}
+
+fn pn(v: u64) -> PacketNumber {
+    PacketNumberSpace::ApplicationData.new_packet_number(VarInt::new(v).expect("pn below 2^62"))
+}
+
+pub struct ResetMap {
+    mapper: ConnectionIdMapper,
+    generator: InternalConnectionIdGenerator,
+    conns: Vec<(InternalConnectionId, Option<PeerIdRegistry>)>,
+}
+
+impl ResetMap {
+    pub fn new() -> Self {
+        Self {
+            mapper: ConnectionIdMapper::new(&mut Rng(0x5eed), endpoint::Type::Client),
+            generator: InternalConnectionIdGenerator::new(),
+            conns: vec![],
+        }
+    }
+
+    /// A client connection: the peer's initial connection id and, when the server's transport
+    /// parameters carry one, its stateless reset token. Returns the connection's index.
+    pub fn open(&mut self, initial_id: u64, initial_token: Option<u128>) -> usize {
+        let internal = self.generator.generate_id();
+        let mut reg = self.mapper.create_client_peer_id_registry(internal, false);
+        reg.register_initial_connection_id(peer_id(initial_id));
+        if let Some(tok) = initial_token {
+            reg.register_initial_stateless_reset_token(token(tok));
+        }
+        self.conns.push((internal, Some(reg)));
+        self.conns.len() - 1
+    }
+
+    pub fn is_open(&self, c: usize) -> bool {
+        matches!(self.conns.get(c), Some((_, Some(_))))
+    }
+
+    fn reg(&mut self, c: usize) -> &mut PeerIdRegistry {
+        self.conns[c].1.as_mut().expect("open connection")
+    }
+
+    /// A NEW_CONNECTION_ID frame as it arrives (encoded, decoded by the frame codec, converted as
+    /// `handle_new_connection_id_frame` does). Returns the transport error code (0 = accepted).
+    pub fn on_new_connection_id_frame(
+        &mut self,
+        c: usize,
+        seq: u64,
+        rpt: u64,
+        id: u64,
+        tok: u128,
+    ) -> V {
+        let id_bytes = id.to_be_bytes();
+        let tok_bytes = tok.to_be_bytes();
+        let frame = frame::NewConnectionId {
+            sequence_number: VarInt::new(seq).expect("below 2^62"),
+            retire_prior_to: VarInt::new(rpt).expect("below 2^62"),
+            connection_id: &id_bytes[..],
+            stateless_reset_token: &tok_bytes,
+        };
+        let mut bytes = vec![0u8; frame.encoding_size()];
+        frame.encode(&mut EncoderBuffer::new(&mut bytes[..]));
+        let res: Result<(), transport::Error> = (|| {
+            let (decoded, _remaining) = DecoderBufferMut::new(&mut bytes[..])
+                .decode::<FrameMut>()
+                .map_err(transport::Error::from)?;
+            let frame = match decoded {
+                Frame::NewConnectionId(f) => f,
+                _ => unreachable!("a NEW_CONNECTION_ID frame was encoded"),
+            };
+            let peer_id = connection::PeerId::try_from_bytes(frame.connection_id)
+                .expect("Length is validated when decoding the frame");
+            let sequence_number: u32 = frame
+                .sequence_number
+                .as_u64()
+                .try_into()
+                .map_err(|_err| transport::Error::PROTOCOL_VIOLATION)?;
+            let retire_prior_to: u32 = frame
+                .retire_prior_to
+                .as_u64()
+                .try_into()
+                .map_err(|_err| transport::Error::PROTOCOL_VIOLATION)?;
+            let stateless_reset_token = (*frame.stateless_reset_token).into();
+            self.reg(c).on_new_connection_id(
+                &peer_id,
+                sequence_number,
+                retire_prior_to,
+                &stateless_reset_token,
+            )?;
+            Ok(())
+        })();
+        match res {
+            Ok(()) => 0,
+            Err(e) => e.code.as_u64() as V,
+        }
+    }
+
+    /// `consume_new_id_for_new_path`: the id taken into use, -1 = none available
+    pub fn consume_new_id(&mut self, c: usize) -> V {
+        match self.reg(c).consume_new_id_for_new_path() {
+            None => -1,
+            Some(id) => id.as_bytes().iter().fold(0 as V, |a, b| (a << 8) | *b as V),
+        }
+    }
+
+    /// One packet with room for `capacity` frames; returns the number of RETIRE_CONNECTION_ID frames written
+    pub fn transmit(&mut self, c: usize, capacity: usize, packet_number: u64) -> V {
+        let mut rec = Recorder {
+            now: ts(1),
+            constraint: constraint(0),
+            capacity,
+            packet_number: pn(packet_number),
+            frames: vec![],
+        };
+        self.reg(c).on_transmit(&mut rec);
+        rec.frames.len() as V
+    }
+
+    pub fn ack(&mut self, c: usize, packet_number: u64) {
+        let range = PacketNumberRange::new(pn(packet_number), pn(packet_number));
+        self.reg(c).on_packet_ack(&range)
+    }
+
+    /// The connection is dropped (its registry with it)
+    pub fn close(&mut self, c: usize) {
+        self.conns[c].1 = None;
+    }
+
+    /// `Endpoint::close_on_matching_stateless_reset` up to the point where the connection is looked
+    /// up: the index of the connection that would be closed with `connection::Error::stateless_reset`
+    pub fn on_datagram(&mut self, payload: &[u8]) -> Option<usize> {
+        let buffer = DecoderBuffer::new(payload);
+        let token_index = payload.len().checked_sub(STATELESS_RESET_TOKEN_LEN)?;
+        let buffer = buffer.skip(token_index).ok()?;
+        let (token, _) = buffer.decode::<stateless_reset::Token>().ok()?;
+        let internal_id = self
+            .mapper
+            .remove_internal_connection_id_by_stateless_reset_token(&token)?;
+        self.conns.iter().position(|(i, _)| *i == internal_id)
+    }
+}
